@@ -409,6 +409,43 @@ func main() {
 			env.Add(fmt.Sprintf("PinCase %d %s", i+1, obs), fmt.Sprintf("[route %d: Run / Compile+Run / Otto.Eval] %s => %v", route, src, o.Val), "pinned-delete-identifier", true)
 		}
 	}
+	// pinned probes of accessor properties reached through the prototype chain: `this` is the original receiver
+	for i, src := range []string{
+		`function A(b){ this.b = b; } A.prototype.b = -1; Object.defineProperty(A.prototype, "dbl", { get: function () { return this.b * 2; } }); [new A(21).dbl].join()`,
+		`function A(b){ this.b = b; } Object.defineProperty(A.prototype, "sc", { set: function (v) { this.c = v; } }); var a = new A(1); a.sc = 5; [a.c, A.prototype.hasOwnProperty("c") ? 1 : 0].join()`,
+		`var p = { get g() { return this.v; }, v: 1 }; var m = Object.create(p); m.v = 3; var c = Object.create(m); c.v = 7; [c.g, m.g].join()`,
+		`var p = { get g() { return this.v * 2; }, v: -1 }; var o = Object.create(p); o.v = 21; var r; with (o) { r = g; } [r].join()`,
+		`function A(b){ this.b = b; } A.prototype.b = -1; Object.defineProperty(A.prototype, "dbl", { get: function () { return this.b * 2; } }); A.prototype.m = function () { return this.dbl; }; var a = new A(21); [a["dbl"], a.m()].join()`,
+		`var log = []; var p = {}; Object.defineProperty(p, "x", { get: function () { return this.y; }, set: function (v) { this.y = v; } }); var o = Object.create(p); o.x = 9; [o.y, p.hasOwnProperty("y") ? 1 : 0, o.x].join()`,
+		`function A(b){ this.b = b; } A.prototype.b = -1; Object.defineProperty(A.prototype, "dbl", { get: function () { return this.b * 2; } }); var d = Object.getOwnPropertyDescriptor(A.prototype, "dbl"); [d.get.call(new A(21)), (typeof d.get === "function") ? 1 : 0].join()`,
+	} {
+		for route := 0; route < 2; route++ {
+			vmP := otto.New()
+			var o Outcome
+			if route == 0 {
+				o = RunJS(vmP, src)
+			} else {
+				o = Guard(func() (otto.Value, error) { return vmP.Eval(src) })
+			}
+			obs := "[]"
+			if o.Err == nil && o.Panic == nil {
+				var zs []string
+				ok := true
+				for _, part := range strings.Split(o.Val.String(), ",") {
+					n, err := strconv.ParseInt(strings.TrimSpace(part), 10, 64)
+					if err != nil {
+						ok = false
+						break
+					}
+					zs = append(zs, Cz(n))
+				}
+				if ok {
+					obs = "[" + strings.Join(zs, "; ") + "]"
+				}
+			}
+			env.Add(fmt.Sprintf("PinCase %d %s", 20+i, obs), fmt.Sprintf("[route %d] %s => %v", route, src, o.Val), "pinned-accessor-receiver", true)
+		}
+	}
 	// generate every program first (one PRNG, deterministic), run them on otto in parallel, record them in order
 	type job struct {
 		full  *fulljs.Program
